@@ -1340,3 +1340,39 @@ def rule_ignore_order(ctx, prop):
                           "path: with --respect-ignores an explicitly named file that its own directory's .styluaignore excludes is "
                           "formatted whenever the working directory has an ignore file of its own", f.loc(), cfg)
     return rep
+
+
+def rule_job_only_in_pool(ctx, prop):
+    """a file is formatted inside a pool worker, never on the dispatching thread: only there a panic stays local"""
+    rep = Report(prop, "R-WORKERS(pool)", "the closure that formats a file (calls format_file / format_string and sends the result) is "
+                                          "only ever handed to ThreadPool::execute - it is never called directly on the walking thread")
+    for cfg, prog in ctx.programs.items():
+        prog = _view(prog)
+        f = prog.fn("stylua", "format")
+        if not rep.anchor(f is not None, "fn format", cfg):
+            continue
+        jobs = [g for g in prog.fns("stylua") if g.kind == "Closure" and g.path.startswith("format::{closure")
+                and any(callee(t) in ("format_file", "format_string") for _, t in g.calls())
+                and any(re.search(r"Sender<.*>::send$|Sender::<T>::send$", callee(t)) for _, t in g.calls())]
+        if not rep.anchor(bool(jobs), "worker closures of format", cfg):
+            continue
+        for g in jobs:
+            direct = [(h, b, t) for h in [f] + [x for x in prog.fns("stylua") if x.path.startswith("format::{closure")]
+                      for b, t in h.calls() if callee(t) == g.path]
+            pooled = False
+            for h in [f] + [x for x in prog.fns("stylua") if x.path.startswith("format::{closure")]:
+                for b, t in h.calls():
+                    if callee(t) == "threadpool::ThreadPool::execute" and any(
+                            r[0] == "agg" and r[1] == "closure " + g.path for a in t["args"][1:] if not is_const(a)
+                            for r in provenance(h, a, through=None, into_aggs=False)):
+                        pooled = True
+            ok = pooled and not direct
+            rep.inst(f"{g.key} runs only as a pool job", {"pooled": pooled, "direct_calls": len(direct)}, cfg, ok=ok)
+            if not ok:
+                why = "is called directly" if direct else "is not handed to ThreadPool::execute"
+                loc = direct[0][0].loc(direct[0][2]["sp"]) if direct else g.loc()
+                rep.violation(f"{g.key} file-job-outside-pool {'direct-call' if direct else 'not-pooled'}",
+                              f"the closure that formats a file {why}: a panic while formatting then unwinds the thread that walks "
+                              f"the arguments (exit 101, the remaining files are never dispatched) instead of being counted by "
+                              f"pool.panic_count() and turned into exit status 2", loc, cfg)
+    return rep
